@@ -7,6 +7,7 @@ import r04_conv
 import r05_select
 import r16_frame
 import r17_determination
+import r18_indexspace
 import r06_validate
 import r07_cache
 import r08_toporder
@@ -73,6 +74,10 @@ def r5(ctx, prop):
             r.nontrivial = {i for i in r.nontrivial if i.startswith(want)}
             r.findings = [f for f in r.findings if any(w in f.key for w in want) or "floor" in f.key]
     return rs
+
+
+def r18(ctx, prop):
+    return r18_indexspace.run(ctx.F())
 
 
 def r17(ctx, prop):
@@ -188,7 +193,7 @@ def r12(ctx, prop):
 
 PROPERTY_RULES = {
     "C08": [r10_wrapper, r11, r2],
-    "C09": [r12, r10_wrapper],
+    "C09": [r12, r18, r10_wrapper],
     "C02": [r3, r7],
     "C10": [r10_selector, r8, r1_idealgas, r3],
     "C14": [r14, r13, r10_identifier],
